@@ -10,6 +10,7 @@ import os
 import re
 import subprocess
 import sys
+sys.path.insert(0, os.path.dirname(os.path.dirname(os.path.abspath(__file__))))
 
 VERIF = os.path.dirname(os.path.dirname(os.path.abspath(__file__)))
 REPO = os.environ.get("VERIF_REPO", "/repo")
@@ -289,6 +290,17 @@ def generate():
     L.append("def cmpStrings : List (String × String × List (List UInt8)) := [" + ", ".join(
         "(%s, %s, [%s])" % (lean_str(b), lean_str(fn), ", ".join(lean_bytes(n) for n in lits))
         for (b, fn), lits in sorted(cmpstrings.items()) if b != "econftool.c") + "]\n")
+    # frame facts (gen/frames.py): which read-only API functions can modify the object they are given
+    from gen import frames
+    api, muts, writers = frames.facts()
+    L.append("/-- for every exported function: the parameters (0-based) through which it can write memory of the caller\n    (gen/frames.py; a function that is not listed writes through none) -/")
+    L.append("def apiWrites : List (String × List Nat) := [" + ", ".join(
+        "(%s, [%s])" % (lean_str(n), ", ".join(str(i) for i in ix)) for n, ix in writers if n.startswith("econf_")) + "]\n")
+    L.append("/-- the API functions that must not modify the configuration object (getters, listings, the writer) -/")
+    L.append("def readonlyApi : List String := [" + ", ".join(lean_str(a) for a in api) + "]\n")
+    L.append("/-- places where one of them stores into, or hands to a writing function, memory reachable from its `econf_file` argument\n    (file, function, kinds of places) -/")
+    L.append("def kfMutations : List (String × String × String) := [" + ", ".join(
+        "(%s, %s, %s)" % (lean_str(a), lean_str(b), lean_str(c)) for a, b, c in muts) + "]\n")
     L.append("end Generated")
     text = "\n".join(L) + "\n"
     old = open(OUT).read() if os.path.exists(OUT) else None
